@@ -201,8 +201,23 @@ def duty_judge(case, impl, model):
 
 
 def fifo_judge(case, impl, model):
-    """datasheet rule, on the implementation alone: after set_payload the FIFO holds the payload from the TX base address on"""
+    """datasheet rules, on the implementation alone: after set_payload the FIFO holds the payload from the TX base address on; SX1272
+    set_modulation_params leaves RegModemConfig1 = Bw(7:6) CodingRate(5:3) [header mode, CRC kept] LowDataRateOptimize(0) and
+    RegModemConfig2 = SpreadingFactor(7:4) [rest kept], whatever the registers held before"""
     t = case.split(" | ")
+    if len(t) == 3 and t[1].startswith("mod ") and "chip=sx1272" in t[0] and impl.split(" ; ")[0].startswith("ldro="):
+        a = t[1].split()
+        sf, bw, cr = int(a[1]) + 5, int(a[2]), int(a[3]) + 1
+        prior = dict((int(x), int(y)) for x, y in (p.split(":") for p in re.search(r"regs=(\S+)", t[0]).group(1).split(",")))
+        m = re.search(r"regs=([0-9a-f]+)", impl.split(" ; ")[-1])
+        if m and 7 <= bw <= 9 and "Ok" in impl.split(" ; ")[0]:
+            regs = bytes.fromhex(m.group(1))
+            ldro_bit = 1 if (1 << sf) * 1000000 >= 16384 * (125000 << (bw - 7)) else 0
+            want1 = (prior.get(29, 0) & 6) | ((bw - 7) << 6) | (cr << 3) | ldro_bit
+            want2 = (prior.get(30, 0) & 0x0f) | (sf << 4)
+            if regs[0x1d - 1] != want1 or regs[0x1e - 1] != want2:
+                return {"kind": "SX1272 set_modulation_params: RegModemConfig1 / RegModemConfig2 are not the datasheet fields for the request on these prior contents",
+                        "RegModemConfig1": hex(regs[0x1d - 1]), "expected1": hex(want1), "RegModemConfig2": hex(regs[0x1e - 1]), "expected2": hex(want2)}
     if t[-1] == "dumpregs" and t[-2].startswith("payload "):
         want = t[-2].split()[1][:32]
         outs = impl.split(" ; ")
